@@ -604,6 +604,11 @@ class UCSReplication(MessagePassingComputation):
                     f"Unexpected answer {agent}, {msg.computation_def.name} - "
                     f"{msg} not in {list(self._pending_requests.keys())}"
                 )
+                if agent in self._removed_agents:
+                    # This request has already been answered on behalf of
+                    # the removed agent (see _answer_lost_requests): its
+                    # real answer was still on its way, drop it.
+                    return
 
             self.on_replicate_answer(
                 msg.budget,
@@ -1186,7 +1191,7 @@ class UCSReplication(MessagePassingComputation):
                 footprint,
                 replica_count,
                 hosts,
-            ) = self._pending_requests[rq]
+            ) = self._pending_requests.pop(rq)
             self.on_replicate_answer(
                 budget,
                 spent,
